@@ -64,6 +64,9 @@ def shards(tier):
             else:
                 for p in itertools.product(range(NR), repeat=t - 2):
                     out.append({'T': t, 'lm': lm, 'prefix': list(p)})
+    for lm in (0, 1):
+        for t in (1, 2):
+            out.append({'faults': t, 'lm': lm})
     for lm in LMS:
         out.append({'factory': lm})
         for t in range(1, T):       # lines with blank-only frames (incl. lines on which nothing but the blank is possible), one frame shorter
@@ -78,6 +81,12 @@ def run_shard(shard, ctx, tier):
     if 'factory' in shard:
         for si, bi, ki in itertools.product(range(len(SCALES)), range(len(BONUS)), range(len(KS))):
             guarded_check(mod, {'factory': shard['factory'], 'cfg': [si, bi, ki]}, ctx)
+        return
+    if 'faults' in shard:
+        for rows in itertools.product(range(NR), repeat=shard['faults']):
+            for ki in (1, 2):
+                for ei in (0, 1):
+                    guarded_check(mod, {'faults': list(rows), 'lm': shard['lm'], 'cfg': [2, 1, ki, ei, 0]}, ctx)
         return
     if shard.get('with_blank_row'):
         for rows in itertools.product(range(len(ROWS)), repeat=shard['T']):
@@ -180,8 +189,64 @@ def check_factory(case, ctx):
     ctx.outcome(('factory', scale, bonus, k))
 
 
+def check_faults(case, ctx):
+    """environment answers (mc/faults.py): the language model fails ONCE (an out-of-memory RuntimeError of its batch call) at any of the calls
+    the decoder makes to it.  The decoder may report that; a bag it returns nevertheless carries the LM's own scores, hands on the maximum
+    of vis + scale*LM and returns that hypothesis' state"""
+    from pero_ocr.decoding.decoders import CTCPrefixLogRawNumpyDecoder
+    from mc import faults
+    rows, lm = case['faults'], case['lm']
+    si, bi, ki, ei, ii = case['cfg']
+    scale, bonus, k, eos = SCALES[si], BONUS[bi], KS[ki], EOS[ei]
+    M = [ROWS[i] for i in rows]
+    with np.errstate(divide='ignore'):
+        lp = np.log(np.asarray(M, dtype=float))
+    w = wrapper(lm)
+    h0 = w.initial_h(1)
+    memo = {}
+    ctx.state(('faults', tuple(rows), lm, tuple(case['cfg'])))
+    inj = faults.Injector([(w, n) for n in ('advance_h0', 'log_probs', 'eos_scores', 'initial_h') if hasattr(w, n)],
+                          lambda name: RuntimeError(f'CUDA out of memory. Tried to allocate 1.50 GiB (injected into the language model, {name})'))
+
+    def call():
+        dec = CTCPrefixLogRawNumpyDecoder(LETTERS, k, lm=w, lm_scale=scale, insertion_bonus=bonus)
+        boh, hret = dec(lp.copy(), model_eos=eos, return_h=True)
+        return [(h.transcript, float(h.vis_sc), float(h.lm_sc)) for h in boh], boh.best_hyp(), hret
+    for kk, site, (what, val) in inj.explore(call):
+        ctx.executed()
+        if kk is None:
+            if what != 'ok':
+                raise val
+            continue
+        ctx.tag('language-model-failure-injected')
+        if what == 'raised':
+            ctx.outcome(('raised', type(val).__name__))
+            continue
+        hyps, best, hret = val
+        ctx.nontrivial(('fault', tuple(rows), lm, tuple(case['cfg']), kk), 'bag-returned-despite-a-failed-lm-call')
+        desc = (f'matrix {M}, LM {lm}, scale {scale}, bonus {bonus}, k {k}, eos {eos}; the LM call #{kk} ({site[2]}, made by {site[1]}) raised an '
+                f'out-of-memory RuntimeError; hypotheses {[(t, round(v, 4), round(l, 4)) for t, v, l in hyps]}')
+        bad = [(t, l, seq_score(w, h0, t, bonus, eos, memo)[0]) for t, v, l in hyps if not (abs(seq_score(w, h0, t, bonus, eos, memo)[0] - l) <= EPS)]
+        if bad:
+            ctx.violation('lm-score-is-the-models-own', f'{ID}/lm{lm}/after-a-failed-lm-call/lm-score-wrong',
+                          f'{desc}; LM score of {bad[0][0]!r} is {bad[0][1]}, sequential re-scoring gives {bad[0][2]}')
+            return
+        tot = [v + scale * l for _, v, l in hyps]
+        tied = [hyps[i][0] for i in range(len(hyps)) if max(tot) - tot[i] <= EPS]
+        if best not in tied:
+            ctx.violation('result-maximises-fused-score', f'{ID}/lm{lm}/after-a-failed-lm-call/not-the-maximum', f'{desc}; best_hyp() = {best!r}, maximal: {tied}')
+            return
+        _, hwant = seq_score(w, h0, best, bonus, False, memo)
+        if hret.prepare_for_torch().shape != hwant.prepare_for_torch().shape or h_value(hret) != h_value(hwant):
+            ctx.violation('returned-state-is-state-of-result', f'{ID}/lm{lm}/after-a-failed-lm-call/returned-state',
+                          f'{desc}; returned LM state {h_value(hret)}, feeding {best!r} gives {h_value(hwant)}')
+            return
+
+
 def check_case(case, ctx):
     from pero_ocr.decoding.decoders import CTCPrefixLogRawNumpyDecoder
+    if 'faults' in case:
+        return check_faults(case, ctx)
     if 'factory' in case:
         return check_factory(case, ctx)
     rows, lm = case['rows'], case['lm']
@@ -362,5 +427,5 @@ def describe(tier):
         'assumptions': ['LM vocabulary == decoder letters (the decoder indexes LM columns by letter index)',
                         'arg-max clauses are skipped when the two best fused scores are within 1e-9'],
         'min_nontrivial': 100,
-        'required_tags': ['best-hypothesis-begins-or-ends-with-a-space', 're-weighted-bag-changes-the-winner', 'decoder-built-from-configuration', 'tie-handled-consistently', 'decoder-reused-for-another-line', 'lm-changes-the-winner', 'scale-changes-the-winner', 'scale-zero-cases', 'beam-pruned'],
+        'required_tags': ['language-model-failure-injected', 'best-hypothesis-begins-or-ends-with-a-space', 're-weighted-bag-changes-the-winner', 'decoder-built-from-configuration', 'tie-handled-consistently', 'decoder-reused-for-another-line', 'lm-changes-the-winner', 'scale-changes-the-winner', 'scale-zero-cases', 'beam-pruned'],
     }
